@@ -34,6 +34,27 @@ pub fn run(prop: &'static str, replay: Option<String>) -> i32 {
         cov["samples"] = json!(out.gens.iter().take(3).map(|g| json!({"accepted_grammar": g.text, "emitted_bytes": g.code.len()})).collect::<Vec<_>>());
         cov["c11"] = extra;
     }
+    if prop == "C02" {
+        // history clause: BFS over tree-builder operation histories on the real CstData
+        let depth = if thorough { 11 } else { 9 };
+        match out.first_bin.as_ref().map(|b| engine_b::run_history(b, depth)) {
+            Some(Ok(h)) => {
+                for v in h["violations"].as_array().cloned().unwrap_or_default() {
+                    let text = v.as_str().unwrap_or("").to_string();
+                    rep.violation(Violation {
+                        key: format!("C02:history:{}", text.split(": ").nth(1).unwrap_or("").split(' ').take(4).collect::<Vec<_>>().join("-")),
+                        summary: format!("C02 history: {}", text.chars().take(600).collect::<String>()),
+                        replay: json!({"history_violation": text, "sexp": out.gens.first().map(|g| vmodel::sexp::to_sexp(&g.grammar))}),
+                    });
+                }
+                cov["history_exploration"] = json!({"depth": depth, "states": h["states"], "transitions": h["transitions"], "finished_histories": h["finished"], "samples": h["samples"],
+                    "rule": "BFS over well-nested histories of open / close / token+skipped run / mark / open_before(mark) / open_before(last closed node) / mark_truncation / truncate / close_root on the real CstData of one emitted parser (<= 4 tokens, <= 4 open frames, <= 2 live marks, one snapshot at a time); after every operation the node vector must equal the serialisation of a reference tree (trailing skipped tokens move to the parent on close), finished histories are checked through the public API with the C01/C02 oracles"});
+                cov["outcomes"] = json!(cov["outcomes"].as_u64().unwrap_or(0) + h["states"].as_u64().unwrap_or(0));
+            }
+            Some(Err(e)) => vcommon::machinery_failure(&format!("history exploration: {e}")),
+            None => {}
+        }
+    }
     let states = cov["outcomes"].as_u64().unwrap_or(0).max(1);
     let transitions = cov["executions"].as_u64().unwrap_or(0).max(1);
     cov["states"] = json!(states);
